@@ -158,7 +158,9 @@ def equal(a, b):
     `<the same fields read with its reader>@<what its discrete rules allow for the input block>`; the fields must be
     textually equal and every block must meet its rule (membership, as for the `plan` sets of C16).  The tokens after it
     (`w7`: hash of every BC7 block re-written by `Enc7.write`; `cl7`: hash of the block `Enc7.emit` re-derives from the
-    emitted parameters and the original pixels) must be textually equal.
+    emitted parameters and the original pixels; `w15`: hash of every BC1-BC5 block re-written by the model's constructors and
+    writers from what the decoder-side readers return; `cl15`: hashes of the 8-byte halves the model re-derives from their
+    own endpoints and the original pixels - binary32 palette and closest search of bc1.rs / bc4.rs) must be textually equal.
     `no-hook`: a direct-tie case (`w7h`, `cl7h`; only generated when `dds::verif_hook::bc7_write` exists) read from a
     corpus / replay file while the library under test has no hook - skipped, not compared."""
     if a == b:
@@ -166,7 +168,7 @@ def equal(a, b):
     if a == "no-hook":
         return True
     ta, tb = a.split(" "), b.split(" ")
-    if len(ta) != len(tb) or len(ta) != 9 or ta[:6] != tb[:6] or ta[7:] != tb[7:] or "@" not in tb[6]:
+    if len(ta) != len(tb) or len(ta) != 11 or ta[:6] != tb[:6] or ta[7:] != tb[7:] or "@" not in tb[6]:
         return False
     obs, rules = tb[6].split("@", 1)
     if obs != ta[6]:
